@@ -76,7 +76,7 @@ STABILISE_PROFILES = {
     ],
 }
 STABILISE_RULE = "; every run ends with C10's fair suffix: crashed members are restarted, nodes that are no longer members are stopped, and then in every round every node handles its Ready and persists at once, every message is delivered, lost snapshots are reported failed by the application, and everybody ticks once; within 60 election timeouts there must be exactly one leader with every member's log, commit index and applied index equal to its own and no joint configuration left, and then a new proposal must be applied on every running member within 6 election timeouts (the verdict is skipped when some voter set of the configuration has no running majority, e.g. an added node that was never started)"
-LOCKSTEP_RULE = "; plus the lock-step scenario of C16: pre_vote and check_quorum on all nodes, after a healthy warm-up a leader and enough voters for a majority tick together and exchange / persist every message at once, while the remaining nodes are ticked in bursts, isolated and rejoined, crashed and restarted, campaign, and everything they send or receive is lost, duplicated, delayed or reordered; after every round the leader must still lead the same term and every member of the majority must still be in that term (no transfer is requested)"
+LOCKSTEP_RULE = "; plus the lock-step scenario of C16: pre_vote and check_quorum on all nodes, after a healthy warm-up a leader and enough voters for a majority tick together and exchange / persist every message at once, while the remaining nodes are ticked in bursts, isolated and rejoined, crashed and restarted, campaign, everything they send or receive is lost, duplicated, delayed or reordered, and copies of all (pre-)vote traffic seen so far (from the warm-up elections on) are re-delivered to anybody as stale duplicates; after every round the leader must still lead the same term and every member of the majority must still be in that term (no transfer is requested)"
 
 
 PROPS = {
@@ -85,10 +85,10 @@ PROPS = {
     "C10": cluster_only(["C10"], STABILISE_PROFILES, component="RN", rule_extra=STABILISE_RULE),
     "C16": cluster(["C16"], ["bump", "campaign"], [], extra_profiles=LOCKSTEP_PROFILES, component="RN", rule_extra=LOCKSTEP_RULE),
     "C17": cluster(["C17"], [], [], component="RN"),
-    "C02": cluster(["C02"], ["campaign", "grant", "win", "stepdown"], ["role", "vote"]),
-    "C03": cluster(["C03"], ["grant", "campaign", "win", "claim"], ["vote"]),
-    "C04": cluster(["C04"], ["commitleader", "commitapp", "commithb", "commitclaim", "commitsnap", "ackcommitted", "sendhb", "claim"], ["commit"]),
-    "C05": cluster(["C05"], ["lappend", "sendapp", "recvapp", "installsnap", "bootstrap"], ["log"]),
+    "C02": cluster(["C02"], ["campaign", "grant", "win", "stepdown"], ["role", "vote"], component="RN"),
+    "C03": cluster(["C03"], ["grant", "campaign", "win", "claim"], ["vote"], component="RN"),
+    "C04": cluster(["C04"], ["commitleader", "commitapp", "commithb", "commitclaim", "commitsnap", "ackcommitted", "sendhb", "claim"], ["commit"], component="RN"),
+    "C05": cluster(["C05"], ["lappend", "sendapp", "recvapp", "installsnap", "bootstrap"], ["log"], component="RN"),
     "C09": cluster(["C09"], ["bootstrap"], [], component="RN"),
     "C13": cluster(["C13"], ["sendapp", "sendhb"], [], component="RN"),
     "C20": cluster(["C20"], [], [], component="RN"),
